@@ -403,6 +403,7 @@ pub struct Report {
     pub machinery_errors: Vec<String>,
     pub extra: Vec<(String, J)>,
     pub watchdog: Option<Duration>,
+    pub skipped_subs: Vec<String>,
 }
 
 pub fn parse_args(id: &str) -> Cfg {
@@ -520,7 +521,16 @@ impl Report {
             machinery_errors: Vec::new(),
             extra: Vec::new(),
             watchdog: None,
+            skipped_subs: Vec::new(),
         }
+    }
+
+    /// number of recorded violations whose key is not an open known finding
+    pub fn unknown_violations(&self) -> usize {
+        self.violations
+            .iter()
+            .filter(|v| !self.known.iter().any(|k| k.status == "open" && k.property == self.cfg.id && k.key == v.key))
+            .count()
     }
 
     pub fn assume(&mut self, s: &str) {
@@ -546,6 +556,12 @@ impl Report {
         F: Fn(&C, &mut Local) + Sync,
     {
         if !self.sub_enabled(name) {
+            return;
+        }
+        if self.unknown_violations() > 0 && self.cfg.replay.is_none() {
+            // fail fast: a violated property may mean undefined behaviour further on (C03/C04/C14/C20)
+            eprintln!("note: sub-harness {} skipped because an earlier sub-harness already found a violation", name);
+            self.skipped_subs.push(name.to_string());
             return;
         }
         let t0 = Instant::now();
@@ -909,6 +925,7 @@ impl Report {
             ("threads", J::U(cfg.threads as u64)),
             ("sub_harnesses", J::Arr(subs)),
             ("known_findings_reported", J::Arr(known_lines.iter().map(|l| J::s(l)).collect())),
+            ("sub_harnesses_skipped_after_violation", J::Arr(self.skipped_subs.iter().map(|l| J::s(l)).collect())),
         ];
         for (k, v) in &self.extra {
             cov.push((k.as_str(), v.clone()));
